@@ -37,6 +37,7 @@ import (
 	"testing/synctest"
 	"time"
 
+	"github.com/modelcontextprotocol/go-sdk/internal/jsonrpc2"
 	"github.com/modelcontextprotocol/go-sdk/jsonrpc"
 )
 
@@ -78,7 +79,7 @@ func (st khStep) model() kaStep {
 }
 
 type khCase struct {
-	side   string // "http": StreamableClientTransport against the foreign HTTP server; "ctxw": a transport whose Write honours its context
+	side   string // "http": StreamableClientTransport against the foreign HTTP server; "ctxw": a Client over a transport whose Write honours its context; "srvw": a Server session over the same transport (the peer is a scripted client)
 	I      int64
 	T      int
 	wire   []khStep
@@ -132,7 +133,7 @@ func khParse(op string) (*khCase, bool) {
 			kv[t[:i]] = t[i+1:]
 		}
 	}
-	if kv["side"] != "http" && kv["side"] != "ctxw" {
+	if kv["side"] != "http" && kv["side"] != "ctxw" && kv["side"] != "srvw" && kv["side"] != "shttp" && kv["side"] != "ssec" && kv["side"] != "sses" {
 		return nil, false
 	}
 	c := &khCase{side: kv["side"], pv: kv["pv"]}
@@ -152,7 +153,7 @@ func khParse(op string) (*khCase, bool) {
 				c.wire = append(c.wire, khStep{kind: el[0]})
 				continue
 			}
-			if len(el) < 2 || !strings.ContainsRune(khKinds, rune(el[0])) {
+			if len(el) < 2 || !(strings.ContainsRune(khKinds, rune(el[0])) || el[0] == 'R') {
 				return nil, false
 			}
 			ds, ct := el[1:], 0
@@ -397,8 +398,15 @@ func khRandCT(rng *rand.Rand, k byte) int {
 // khCtxConn is the client side of a custom transport whose Write is bound to the caller's context, the way the SSE
 // client's POST is: a write that cannot complete blocks until its context is done and returns the context's error.
 // The peer behind it answers initialize and treats the k-th ping on script: j<d> result after d, J<d> -32601 after d,
-// x<d> -32603 after d, n accepted and never answered, w the WRITE stalls (nothing is delivered) until the caller gives up.
+// x<d> -32603 after d, n accepted and never answered, w the WRITE stalls (nothing is delivered) until the caller gives up,
+// R<d> the transport REFUSES this one message after d (< the ping timeout): Write returns an error wrapping
+// jsonrpc2.ErrRejected, the way the streamable transports refuse a request they cannot deliver right now (no
+// standalone stream, a transient HTTP status) — the connection stays usable, the ping failed.
+// With server set the same connection is the transport of a ServerSession: the peer is a scripted CLIENT that sends
+// initialize (protocol version pv) and notifications/initialized and then treats the server's pings on script.
 type khCtxConn struct {
+	server bool
+	pv     string
 	mu     sync.Mutex
 	t0     time.Time
 	wire   []khStep
@@ -409,7 +417,15 @@ type khCtxConn struct {
 	once   sync.Once
 }
 
-func (c *khCtxConn) Connect(context.Context) (Connection, error) { return c, nil }
+var khInitID, _ = jsonrpc.MakeID(float64(1))
+
+func (c *khCtxConn) Connect(context.Context) (Connection, error) {
+	if c.server {
+		b, _ := json.Marshal(&InitializeParams{ProtocolVersion: c.pv, Capabilities: &ClientCapabilities{}, ClientInfo: &Implementation{Name: "peer", Version: "1"}})
+		c.deliver(0, &jsonrpc.Request{ID: khInitID, Method: "initialize", Params: b})
+	}
+	return c, nil
+}
 func (c *khCtxConn) SessionID() string                          { return "" }
 func (c *khCtxConn) Close() error                               { c.once.Do(func() { close(c.closed) }); return nil }
 
@@ -445,6 +461,9 @@ func (c *khCtxConn) Write(ctx context.Context, msg jsonrpc.Message) error {
 	}
 	req, ok := msg.(*jsonrpc.Request)
 	if !ok || !req.IsCall() {
+		if resp, isResp := msg.(*jsonrpc.Response); isResp && c.server && resp.ID == khInitID {
+			c.deliver(0, &jsonrpc.Request{Method: "notifications/initialized", Params: json.RawMessage("{}")})
+		}
 		return nil // responses, notifications/initialized, notifications/cancelled: accepted
 	}
 	switch req.Method {
@@ -475,6 +494,15 @@ func (c *khCtxConn) Write(ctx context.Context, msg jsonrpc.Message) error {
 		case <-c.closed:
 			return io.ErrClosedPipe
 		}
+	case 'R':
+		select {
+		case <-time.After(time.Duration(st.d)):
+		case <-ctx.Done():
+			return ctx.Err()
+		case <-c.closed:
+			return io.ErrClosedPipe
+		}
+		return fmt.Errorf("%w: the transport cannot deliver %s now", jsonrpc2.ErrRejected, req.Method)
 	case 'j':
 		c.deliver(st.d, &jsonrpc.Response{ID: req.ID, Result: json.RawMessage("{}")})
 	case 'J':
@@ -495,13 +523,28 @@ func khRunCtx(t *testing.T, c *khCase) (obs string) {
 			}
 		}()
 		ctx := context.Background()
-		conn := &khCtxConn{wire: c.wire, t0: time.Now(), in: make(chan jsonrpc.Message), closed: make(chan struct{})}
+		conn := &khCtxConn{server: c.side == "srvw", pv: c.pv, wire: c.wire, t0: time.Now(), in: make(chan jsonrpc.Message), closed: make(chan struct{})}
 		I := time.Duration(c.I)
-		cl := NewClient(&Implementation{Name: "c", Version: "1"}, &ClientOptions{KeepAlive: I, KeepAliveFailureThreshold: c.T, Logger: kaLogger})
-		cs, err := cl.Connect(ctx, conn, &ClientSessionOptions{ProtocolVersion: c.pv})
-		if err != nil {
-			obs = "connect-failed"
-			return
+		var cs interface {
+			Wait() error
+			Close() error
+		}
+		if conn.server {
+			srv := NewServer(&Implementation{Name: "s", Version: "1"}, &ServerOptions{KeepAlive: I, KeepAliveFailureThreshold: c.T, Logger: kaLogger})
+			ss, err := srv.Connect(ctx, conn, nil)
+			if err != nil {
+				obs = "connect-failed"
+				return
+			}
+			cs = ss
+		} else {
+			cl := NewClient(&Implementation{Name: "c", Version: "1"}, &ClientOptions{KeepAlive: I, KeepAliveFailureThreshold: c.T, Logger: kaLogger})
+			s, err := cl.Connect(ctx, conn, &ClientSessionOptions{ProtocolVersion: c.pv})
+			if err != nil {
+				obs = "connect-failed"
+				return
+			}
+			cs = s
 		}
 		start := time.Since(conn.t0).Nanoseconds()
 		var mu sync.Mutex
@@ -541,13 +584,15 @@ func khRunCtx(t *testing.T, c *khCase) (obs string) {
 
 func khRandomCtx(rng *rand.Rand, maxLen, maxT int) *khCase {
 	I := []int64{1000, 5000, 30_000_000_000}[rng.Intn(3)]
-	c := &khCase{side: "ctxw", I: I, T: rng.Intn(maxT+2) - 1, pv: []string{protocolVersion20251125, protocolVersion20250618}[rng.Intn(2)]}
+	c := &khCase{side: []string{"ctxw", "srvw"}[rng.Intn(2)], I: I, T: rng.Intn(maxT+2) - 1, pv: []string{protocolVersion20251125, protocolVersion20250618}[rng.Intn(2)]}
 	n := rng.Intn(maxLen + 1)
 	pw := []int{20, 50, 80}[rng.Intn(3)]
 	for i := 0; i < n; i++ {
 		switch r := rng.Intn(100); {
-		case r < pw:
+		case r < pw/2:
 			c.wire = append(c.wire, khStep{kind: 'w'})
+		case r < pw:
+			c.wire = append(c.wire, khStep{'R', []int64{0, 0, 1 + rng.Int63n(I/2-1)}[rng.Intn(3)], 0})
 		case r < pw+(100-pw)*6/10:
 			c.wire = append(c.wire, khStep{'j', khDelay(rng, I), 0})
 		default:
@@ -606,7 +651,11 @@ func TestVerifKeepAliveHTTP(t *testing.T) {
 	emit := func(prefix string, c *khCase) {
 		id := fmt.Sprintf("%s%d", prefix, n)
 		var obs string
-		if c.side == "ctxw" {
+		if c.side == "ssec" || c.side == "sses" {
+			obs = khRunSSE(t, c)
+		} else if c.side == "shttp" {
+			obs = khRunSrvHTTP(t, c)
+		} else if c.side == "ctxw" || c.side == "srvw" {
 			obs = khRunCtx(t, c)
 		} else {
 			obs = khRun(t, c)
@@ -621,7 +670,7 @@ func TestVerifKeepAliveHTTP(t *testing.T) {
 		}
 		for _, ln := range strings.Split(string(b), "\n") {
 			ln = strings.TrimSpace(ln)
-			if !strings.HasPrefix(ln, "kas ") || !(strings.Contains(ln, " side=http ") || strings.Contains(ln, " side=ctxw ")) {
+			if !strings.HasPrefix(ln, "kas ") || !(strings.Contains(ln, " side=http ") || strings.Contains(ln, " side=ctxw ") || strings.Contains(ln, " side=srvw ") || strings.Contains(ln, " side=shttp ") || strings.Contains(ln, " side=ssec ") || strings.Contains(ln, " side=sses ")) {
 				continue // the other lines belong to the streams `loop` and `sessions`
 			}
 			c, ok := khParse(ln)
@@ -690,25 +739,113 @@ func TestVerifKeepAliveHTTP(t *testing.T) {
 		}
 		// the context-honouring transport: k stalled ping writes (k = 1..4) after 0..2 answered pings, then answers
 		// again or goes on stalling x thresholds 0..4
-		for pre := 0; pre <= 2; pre++ {
-			for k := 1; k <= 4; k++ {
-				for _, tail := range []byte{'j', 'w'} {
-					for T := 0; T <= 4; T++ {
+		// the same for k REFUSED ping writes (jsonrpc2.ErrRejected), and for k failures of mixed kinds (a timed-out
+		// ping, then refused ones); each on a Client session and on a Server session
+		for _, side := range []string{"ctxw", "srvw"} {
+			for _, miss := range []string{"w", "R", "nR"} {
+				for pre := 0; pre <= 2; pre++ {
+					for k := 1; k <= 4; k++ {
+						for _, tail := range []byte{'j', miss[len(miss)-1]} {
+							for T := 0; T <= 4; T++ {
+								var w []khStep
+								for i := 0; i < pre; i++ {
+									w = append(w, khStep{'j', 10, 0})
+								}
+								for i := 0; i < k; i++ {
+									m := miss[len(miss)-1]
+									if i < len(miss) {
+										m = miss[i]
+									}
+									if m == 'R' {
+										w = append(w, khStep{'R', int64(7 * (i % 2)), 0})
+									} else {
+										w = append(w, khStep{kind: m})
+									}
+								}
+								for i := 0; i < 3; i++ {
+									if tail == 'j' {
+										w = append(w, khStep{tail, 11, 0})
+									} else if tail == 'R' {
+										w = append(w, khStep{'R', 0, 0})
+									} else {
+										w = append(w, khStep{kind: tail})
+									}
+								}
+								c := &khCase{side: side, I: I, T: T, wire: w, pv: protocolVersion20251125}
+								c.derive()
+								c.tc = kaAfter(I, c.script)
+								emit("w", c)
+							}
+						}
+					}
+				}
+			}
+		}
+	}
+	if os.Getenv("VERIF_CASES") == "" {
+		// the real streamable SERVER transport: every pattern of length 1..4 over {answered, the client has no
+		// standalone stream at that tick (ping refused), never answered} — and -32601 / -32603 as the first reply —
+		// followed by answers, x thresholds 0..3
+		const I = 1000
+		for l := 1; l <= 4; l++ {
+			for code, total := 0, pow3(l); code < total; code++ {
+				for T := 0; T <= 3; T++ {
+					var w []khStep
+					for i, cd := 0, code; i < l; i, cd = i+1, cd/3 {
+						w = append(w, []khStep{{'j', int64(3 + 4*i), 0}, {'R', 0, 0}, {kind: 'n'}}[cd%3])
+					}
+					w = append(w, khStep{'j', 11, 0}, khStep{'j', 5, 0})
+					c := &khCase{side: "shttp", I: I, T: T, wire: w, pv: []string{protocolVersion20251125, protocolVersion20250618}[(T+l)%2]}
+					c.derive()
+					c.tc = kaAfter(I, c.script)
+					emit("g", c)
+				}
+			}
+		}
+		for _, k := range []byte("Jx") {
+			for _, d := range []int64{3, I/2 + 101} {
+				for T := 0; T <= 2; T++ {
+					w := []khStep{{'j', 7, 0}, {k, d, 0}, {'R', 0, 0}, {'j', 9, 0}}
+					c := &khCase{side: "shttp", I: I, T: T, wire: w, pv: protocolVersion20251125}
+					c.derive()
+					c.tc = kaAfter(I, c.script)
+					emit("g", c)
+				}
+			}
+		}
+	}
+	if os.Getenv("VERIF_CASES") == "" {
+		// the real SSE transports: every pattern of length 1..3 over {answered in time, lost, -32603, and — client
+		// side — the POST stalls until the ping's context ends / — server side — answered too late} followed by two
+		// answers, x thresholds 0..3 x keep-alive on the client / on the server; -32601 as the first reply
+		const I = 1000
+		for _, side := range []string{"ssec", "sses"} {
+			for l, total := 1, 4; l <= 3; l, total = l+1, total*4 {
+				for code := 0; code < total; code++ {
+					for T := 0; T <= 3; T++ {
 						var w []khStep
-						for i := 0; i < pre; i++ {
-							w = append(w, khStep{'j', 10, 0})
+						for i, cd := 0, code; i < l; i, cd = i+1, cd/4 {
+							k := []khStep{{'j', int64(3 + 4*i), 0}, {kind: 'n'}, {'x', int64(5 + 2*i), 0}, {kind: 'w'}}[cd%4]
+							if k.kind == 'w' && side == "sses" {
+								k = khStep{'j', I/2 + 57, 0}
+							}
+							w = append(w, k)
 						}
-						for i := 0; i < k; i++ {
-							w = append(w, khStep{kind: 'w'})
-						}
-						for i := 0; i < 3; i++ {
-							w = append(w, khStep{tail, 11, 0})
-						}
-						c := &khCase{side: "ctxw", I: I, T: T, wire: w, pv: protocolVersion20251125}
+						w = append(w, khStep{'j', 11, 0}, khStep{'j', 5, 0})
+						c := &khCase{side: side, I: I, T: T, wire: w, pv: []string{protocolVersion20251125, protocolVersion20250618}[(T+l)%2]}
 						c.derive()
 						c.tc = kaAfter(I, c.script)
-						emit("w", c)
+						emit("e", c)
 					}
+				}
+			}
+			for _, d := range []int64{3, I/2 + 101} {
+				for T := 0; T <= 2; T++ {
+					w := []khStep{{'j', 7, 0}, {'J', d, 0}, {kind: 'n'}, {'j', 9, 0}}
+					c := &khCase{side: side, I: I, T: T, wire: w, pv: protocolVersion20251125}
+					c.derive()
+					c.tc = kaAfter(I, c.script)
+					emit("e", c)
 				}
 			}
 		}
@@ -724,5 +861,51 @@ func TestVerifKeepAliveHTTP(t *testing.T) {
 		if i%3 == 0 {
 			emit("v", khRandomCtx(rng, 8, 4))
 		}
+		if i%4 == 1 {
+			emit("g", khRandomSrvHTTP(rng, 8, 4))
+		}
+		if i%4 == 2 {
+			c := khRandomCtx(rng, 8, 4) // kinds j, J, x, n, w, R
+			c.side = []string{"ssec", "sses"}[rng.Intn(2)]
+			for j := range c.wire {
+				if c.wire[j].kind == 'R' || (c.wire[j].kind == 'w' && c.side == "sses") {
+					c.wire[j] = khStep{kind: 'n'}
+				}
+			}
+			c.derive()
+			emit("e", c)
+		}
 	}
+}
+
+func pow3(n int) int {
+	r := 1
+	for ; n > 0; n-- {
+		r *= 3
+	}
+	return r
+}
+
+func khRandomSrvHTTP(rng *rand.Rand, maxLen, maxT int) *khCase {
+	I := []int64{1000, 5000, 30_000_000_000}[rng.Intn(3)]
+	c := &khCase{side: "shttp", I: I, T: rng.Intn(maxT+2) - 1, pv: []string{protocolVersion20251125, protocolVersion20250618}[rng.Intn(2)]}
+	n := rng.Intn(maxLen + 1)
+	pr := []int{15, 40, 70}[rng.Intn(3)]
+	for i := 0; i < n; i++ {
+		switch r := rng.Intn(100); {
+		case r < pr:
+			c.wire = append(c.wire, khStep{'R', 0, 0})
+		case r < pr+(100-pr)*6/10:
+			c.wire = append(c.wire, khStep{'j', khDelay(rng, I), 0})
+		default:
+			c.wire = append(c.wire, khStep{"Jxn"[rng.Intn(3)], khDelay(rng, I), 0})
+		}
+	}
+	c.derive()
+	k := n
+	if rng.Intn(3) == 0 {
+		k = rng.Intn(n + 1)
+	}
+	c.tc = kaBetween(I, k)
+	return c
 }
